@@ -10,8 +10,13 @@ case (kind=rx): `msg=<msgspec> calls=<item>+<item>… / <item>… / -`   (one re
   observed    : `res=<r>/<r>… pend=<seq>:<total>:<datalen>:<masklen>,…|- hand=<bytes left in handBuf>`
                  r = `m:<enc>@<pending buffers>` | `e:<toolong|oob|mismatch|toomany|needmore|other>@<n>`
 case (kind=tx): `pmtu=<int> seq=<message_seq> msg=<msgspec>`
-  observed    : `max=<maxPayload> recs=<12-byte header hex>:<enc body>,… rt=<m:enc|e:kind>`
+  observed    : `max=<maxPayload> recs=<12-byte header hex>:<enc body>,… rt=<m:enc|e:kind> keep=<0|1>`
+                 (keep: marshal() of the message object after the write is still the unfragmented encoding)
                | `max=<maxPayload> err=<short|pmtu|other> sent=<datagrams>`
+case (kind=e2e): `suite=<ecc-gcm|ecc-cbc|ecdhe-gcm|ecdhe-cbc> cp=<client PMTU> sp=<server PMTU>`  one real handshake
+  observed    : `hs=ok cs=<version>.<suite>.<resumed>.<peer certs at client>.<at server> same=<both ends agree>
+                 fin=<both ends recorded the same Finished values> bigC=<largest handshake body the client sent> bigS=<… server>`
+               | `hs=fail bigC=… bigS=…`      (bigC/bigS depend on certificates: inputs to the model, echoed)
 msgspec  = `-` | hex | `@<len>.<seed>` (m[i] = byte(i*(2*seed+1) + i/256 + seed))
 bodyspec = `g` (m[off:off+len], clipped) | `z<k>` (k bytes 0x5a) | hex | `-`
 enc      = hex when ≤ 48 bytes, else `h<len>.<FNV-1a 64>`
@@ -311,10 +316,10 @@ def judgeRX (ct ot : List String) : Option Verdict := do
 
 def showTx (maxp : Nat) (r : TxResult) (rt : String) : String :=
   match r with
-  | .single d => s!"max={maxp} recs={Hex.encode (d.take 12)}:{enc (d.drop 12)} rt={rt}"
+  | .single d => s!"max={maxp} recs={Hex.encode (d.take 12)}:{enc (d.drop 12)} rt={rt} keep=1"
   | .frags rs =>
     let ss := rs.map fun d => s!"{Hex.encode (d.take 12)}:{enc (d.drop 12)}"
-    s!"max={maxp} recs={if ss.isEmpty then "-" else ",".intercalate ss} rt={rt}"
+    s!"max={maxp} recs={if ss.isEmpty then "-" else ",".intercalate ss} rt={rt} keep=1"
   | .errTooShort => s!"max={maxp} err=short sent=0"
   | .errPmtuTooSmall => s!"max={maxp} err=pmtu sent=0"
 
@@ -353,6 +358,8 @@ def judgeTX (ct ot : List String) : Option Verdict := do
         | [h, b] => (Hex.decode h).map fun hb => (hb, b)
         | _ => none
       if parsed.any (·.isNone) || (kv ot "badrec").isSome then some ("shape", "malformed record") else
+      if kv ot "keep" != some "1" then
+        some ("cached-encoding-changed", "after sending, the message object no longer marshals to its unfragmented encoding (a transcript hashing it later differs from the receiver's)") else
       let ps := parsed.filterMap id
       let n := m.length
       -- each fragment: right type / length / seq, body = the message bytes at its offset
@@ -383,6 +390,56 @@ def judgeTX (ct ot : List String) : Option Verdict := do
   pure { model := model, spec := spec, trivial := false,
          note := match r with | .single _ => "single" | .frags _ => "fragmented" | _ => "refused" }
 
+/-! ### kind=e2e -/
+
+def suiteOf (s : String) : Option (Nat × DtlcpTx.Cipher × Bool × Bool) :=   -- id, cipher, isCBC, isECDHE
+  let gcm : DtlcpTx.Cipher := .aead (Facts.dtlcp.aeadNonceLength - Facts.dtlcp.noncePrefixLength) 16
+  let cbc : DtlcpTx.Cipher := .cbc 16 32
+  if s == "ecc-gcm" then some (Facts.dtlcp.ECC_SM4_GCM_SM3, gcm, false, false)
+  else if s == "ecc-cbc" then some (Facts.dtlcp.ECC_SM4_CBC_SM3, cbc, true, false)
+  else if s == "ecdhe-gcm" then some (Facts.dtlcp.ECDHE_SM4_GCM_SM3, gcm, false, true)
+  else if s == "ecdhe-cbc" then some (Facts.dtlcp.ECDHE_SM4_CBC_SM3, cbc, true, true)
+  else none
+
+/-- model: can a side with this PMTU send its handshake? every message either fits one
+record or is fragmented with a positive fragment body and at most `maxHandshakeFragments`
+fragments (the receiver's iteration cap, `C17_sender_receiver_conn`) -/
+def sendable (pmtu : Int) (c : DtlcpTx.Cipher) (bodyLen : Nat) : Bool :=
+  let mp := DtlcpTx.maxPayloadSizeForWrite txConsts pmtu c
+  12 + bodyLen ≤ mp || (mp > 12 && (bodyLen + (mp - 12) - 1) / (mp - 12) ≤ fuel)
+
+def modelWorkable (pmtu : Int) (c : DtlcpTx.Cipher) (big : Nat) : Bool :=
+  sendable pmtu .none big && sendable pmtu c Facts.dtlcp.finishedVerifyLength
+
+/-- spec (documented sizes): one byte of fragment body must fit a protected record
+(SM4-GCM: 13+8+16+12+1 = 50, SM4-CBC: 13+16+48 = 77) and the largest message must not need
+more than 256 fragments of PMTU−25 bytes -/
+def specWorkable (pmtu : Int) (isCBC : Bool) (big : Nat) : Bool :=
+  let p : Nat := if pmtu ≤ 0 then 1400 else pmtu.toNat
+  p ≥ (if isCBC then 77 else 50) && big ≤ FragmentSpec.maxFragmentIterations * (p - 25)
+
+def judgeE2E (ct ot : List String) : Option Verdict := do
+  let (id, c, isCBC, isECDHE) ← (kv ct "suite").bind suiteOf
+  let cp ← (kv ct "cp").bind parseInt
+  let sp ← (kv ct "sp").bind parseInt
+  let bigC := (kvNat ot "bigC").getD 0
+  let bigS := (kvNat ot "bigS").getD 0
+  let nS := if isECDHE then 2 else 0
+  let works := modelWorkable cp c bigC && modelWorkable sp c bigS
+  let model := if works then s!"hs=ok cs={Facts.dtlcp.VersionTLCP}.{id}.0.2.{nS} same=1 fin=1 bigC={bigC} bigS={bigS}"
+               else s!"hs=fail bigC={bigC} bigS={bigS}"
+  let spec : Option (String × String) :=
+    if !(specWorkable cp isCBC bigC && specWorkable sp isCBC bigS) then none
+    else if kv ot "hs" != some "ok" then
+      some ("pmtu-dependent-result", s!"the handshake fails with path MTU {cp} (client) / {sp} (server) although it completes at 1400")
+    else if kv ot "fin" != some "1" || kv ot "same" != some "1" then
+      some ("finished-differs", "the two ends completed with different Finished values or parameters")
+    else if kv ot "cs" != some s!"257.{id}.0.2.{nS}" then
+      some ("parameters-differ", s!"negotiated parameters {(kv ot "cs").getD "?"} differ from the PMTU-1400 baseline 257.{id}.0.2.{nS}")
+    else none
+  pure { model := model, spec := spec, trivial := false,
+         note := if works then "workable" else "unworkable" }
+
 def judge (c o : String) : Option Verdict :=
   let ct := tokens c
   let ot := tokens o
@@ -390,6 +447,7 @@ def judge (c o : String) : Option Verdict :=
   | some "fb" => judgeFB ct ot
   | some "rx" => judgeRX ct ot
   | some "tx" => judgeTX ct ot
+  | some "e2e" => judgeE2E ct ot
   | _ => none
 
 end Gotlcp.Oracle.C17
